@@ -367,12 +367,23 @@ func (g *gen) genCert() cfgCase {
 		case k < 10:
 			if o, ok := g.pickRef(a.kindObjects("certmap")); ok {
 				x := a.blocksOf(o)[0]
-				for j, s := range x.Subs {
-					if strings.HasPrefix(s, "subject-name") {
-						x.Subs[j] = fmt.Sprintf("subject-name attr ea co @Other%d.example.com", r.Intn(2))
+				if r.Chance(35) {
+					// a map without any subject-name (key ""): never matched with a rule of the target
+					for j := 0; j < len(x.Subs); j++ {
+						if strings.HasPrefix(x.Subs[j], "subject-name") {
+							x.Subs = append(x.Subs[:j:j], x.Subs[j+1:]...)
+							j--
+						}
 					}
+					say("certmap-without-subject-name")
+				} else {
+					for j, s := range x.Subs {
+						if strings.HasPrefix(s, "subject-name") {
+							x.Subs[j] = fmt.Sprintf("subject-name attr ea co @Other%d.example.com", r.Intn(2))
+						}
+					}
+					say("certmap-subject-changed")
 				}
-				say("certmap-subject-changed")
 			}
 		case k < 20:
 			if o, ok := g.pickRef(a.kindObjects("certmap")); ok {
